@@ -138,6 +138,36 @@ VARIANTS = [
     V( 'duration-hours-from-days', TIMES, "hours = d_secs // cls.HR", "hours			= w_secs // cls.HR", fires=[ 'T-DURATION' ] ),
     V( 'record-split-once', HFILES, "dt,sn,js = l.split( '\\t', 2 )", "dt,sn,js			= l.split( '\\t' )", fires=[ 'T-RECORD' ] ),
     V( 'record-no-newline', HFILES, "json.dumps( data ))) + '\\n',", "json.dumps( data ))),", fires=[ 'T-RECORD' ] ),
+    # ---- C18 history replay structure (H-*)
+    V( 'hparse-comment-kept-at-eof', HFILES, "l = None\n continue # blank or comment", "continue # blank or comment", fires=[ 'H-PARSE' ] ),
+    V( 'hparse-for-else-raise', HFILES, "l = None\n continue # blank or comment\n break\n if not l:\n raise StopIteration( \"Empty file\" )", "continue # blank or comment\n        break\n    else:\n        raise StopIteration( \"Empty file\" )\n    if not l:\n        raise StopIteration( \"Empty file\" )", silent=[ 'H-PARSE', 'T-RECORD' ] ),
+    V( 'hparse-count-after-skip', HFILES, "n += 1\n l = l.decode( encoding or 'ascii' ).lstrip()\n if not l or l.startswith( '#' ):\n l = None\n continue # blank or comment", "l			= l.decode( encoding or 'ascii' ).lstrip()\n        if not l or l.startswith( '#' ):\n            l			= None\n            continue # blank or comment\n        n		       += 1", fires=[ 'H-PARSE' ] ),
+    V( 'hfiles-lexicographic', HFILES, "if n.startswith( self.name )), key=natural ):", "if n.startswith( self.name ))):", fires=[ 'H-FILES' ] ),
+    V( 'hfiles-reversed', HFILES, "if n.startswith( self.name )), key=natural ):", "if n.startswith( self.name )), key=natural, reverse=True ):", fires=[ 'H-FILES' ] ),
+    V( 'hfiles-stopiteration-break', HFILES, "if fd:\n fd.close()\n continue\n except Exception as exc:", "break\n                except Exception as exc:", fires=[ 'H-FILES' ] ),
+    V( 'hfiles-after-nonstrict-gt', HFILES, "if after and not( ts > target if strict else ts >= target ):", "if after and not( ts > target ):", fires=[ 'H-FILES' ] ),
+    V( 'hfiles-after-equivalent', HFILES, "if after and not( ts > target if strict else ts >= target ):", "if after and ( ts <= target if strict else ts < target ):", silent=[ 'H-FILES' ] ),
+    V( 'hfiles-before-strict-swapped', HFILES, "if not after and ( ts < target if strict else ts <= target ):", "if not after and ( ts <= target if strict else ts < target ):", fires=[ 'H-FILES' ] ),
+    V( 'hfiles-first-wins', HFILES, "while len( opened ) > 1:\n f,n,fd,(ts,js) = opened.pop( 0 )", "while len( opened ) > 1:\n                f,n,fd,(ts,js)	= opened.pop()", fires=[ 'H-FILES' ] ),
+    V( 'hnatural-no-accumulate', 'misc.py', "res[-1] = res[-1] * 10 + int( c )", "res.append( int( c ))", fires=[ 'H-NATURAL' ] ),
+    V( 'hnatural-left-aligned', 'misc.py', 'def natural( string, fmt="%9s", ):', 'def natural( string, fmt="%-9s", ):', fires=[ 'H-NATURAL' ] ),
+    V( 'hopener-gz-as-bz2', HFILES, "return closer( path, gzip.GzipFile( path, mode=mode ))", "return closer( path, bz2.BZ2File( path, mode=mode ))", fires=[ 'H-OPENER' ] ),
+    V( 'hpace-lookahead-dropped', HFILES, "cur = self.advance()\n adv = cur + ( lookahead or 0.0 )\n if ts > adv:", "cur		= self.advance()\n                    adv		= cur\n                    if ts > adv:", fires=[ 'H-PACE' ] ),
+    V( 'hpace-announce-then-next', HFILES, "yield (f,n,cur),(ts,None)\n continue", "yield (f,n,cur),(ts,None)", fires=[ 'H-PACE' ] ),
+    V( 'hpace-due-test-inverted', HFILES, "adv = cur + ( lookahead or 0.0 )\n if ts > adv:\n #log.info", "adv		= cur + ( lookahead or 0.0 )\n                    if ts < adv:\n                        #log.info", fires=[ 'H-PACE' ] ),
+    V( 'hpace-no-reread-clock', HFILES, "if ts > adv:\n cur = self.advance()\n adv = cur + ( lookahead or 0.0 )\n if ts > adv:", "if ts > adv:\n                    if ts > adv:", fires=[ 'H-PACE' ] ),
+    V( 'hload-accept-strictly-greater', HFILES, "if self._ts is None or ts >= self._ts:", "if self._ts is None or ts > self._ts:", fires=[ 'H-LOAD' ] ),
+    V( 'hload-drain-with-lookahead', HFILES, "while len( self.future ) and self.future[0][0] <= cur:", "while len( self.future ) and self.future[0][0] <= cur + ( self.lookahead or 0.0 ):", fires=[ 'H-LOAD' ] ),
+    V( 'hload-pop-newest', HFILES, "ts,regs = self.future.popleft()", "ts,regs		= self.future.pop()", fires=[ 'H-LOAD' ] ),
+    V( 'hload-open-target-cur', HFILES, "self._i = self.open( target=self._ts, after=after,", "self._i	= self.open( target=cur, after=after,", fires=[ 'H-LOAD' ] ),
+    V( 'hload-release-on-equal', HFILES, "if self._seen and ( self._ts is None or ts > self._ts ):", "if self._seen and ( self._ts is None or ts >= self._ts ):", fires=[ 'H-LOAD' ] ),
+    V( 'hstrict-state-proxy', HFILES, "if self._seen and ( self._ts is None or ts > self._ts ):", "if self.state not in (self.INITIAL, self.SWITCHING) and ( self._ts is None or ts > self._ts ):", fires=[ 'H-STRICT' ],
+       why='the defect repaired by fix J: AWAITING on the first record of a file' ),
+    V( 'hstrict-seen-set-before-test', HFILES, "if self._strict:\n # But first, carefully release", "self._seen		= True\n                    if self._strict:\n                        # But first, carefully release", fires=[ 'H-STRICT' ] ),
+    V( 'hstrict-seen-not-reset', HFILES, "self._strict= True # remains until we see increasing timestamps\n self._seen = False", "self._strict= True # remains until we see increasing timestamps", fires=[ 'H-STRICT' ] ),
+    V( 'hstrict-strict-not-set', HFILES, "self._strict= True # remains until we see increasing timestamps", "pass", fires=[ 'H-STRICT', 'H-LOAD' ] ),
+    V( 'hstrict-streaming-moved-up', HFILES, "# We got a non-None <ts>,<js>; if we aren't exhausted, we're now streaming!\n if self._strict:", "if self.state in (self.INITIAL, self.SWITCHING, self.AWAITING):\n                        self.state	= self.STREAMING\n                    if self._strict:", silent=[ 'H-STRICT', 'H-LOAD' ],
+       why='harmless once the release no longer reads the state' ),
     V( 'states-name-missing', HFILES, "AWAITING: \"AWAITING\",", "", fires=[ 'X-STATES' ] ),
     V( 'states-bool-le', HFILES, "return self.state < self.COMPLETE", "return self.state <= self.COMPLETE", fires=[ 'X-STATES' ] ),
     V( 'extent-recomputed', MODBUS, "length = max( length, address + count - base )", "length	= address + count - base", fires=[ 'M-EXTENT' ] ),
